@@ -52,15 +52,41 @@ func verifNewStores(wid string) *vStores {
 	return s
 }
 
+// vPinned: hashes, script hashes and coin amounts are fixed pairwise distinct constants instead of arbitrary
+// values (harnesses with several transactions, where arbitrary 32-byte keys make every database look-up a solver
+// question; the arbitrary versions are covered by the single-transaction harnesses). Set by the harness in
+// symbolic and native runs alike, so replays read the same value sequence.
+var vPinned bool
+var vPinCtr byte
+
 func vHash() wire.Hash {
 	var h wire.Hash
+	if vPinned {
+		vPinCtr++
+		h[0], h[31] = 0xC0, vPinCtr
+		return h
+	}
 	copy(h[:], rt.NondetBytes(32))
 	return h
+}
+
+func vScriptHash() []byte {
+	if vPinned {
+		vPinCtr++
+		sh := make([]byte, 32)
+		sh[0], sh[31] = 0xD0, vPinCtr
+		return sh
+	}
+	return rt.NondetBytes(32)
 }
 
 const vMaxAmount = 206438400 * 100000000
 
 func vAmount() massutil.Amount {
+	if vPinned {
+		a, _ := massutil.NewAmountFromUint(7000000000)
+		return a
+	}
 	v := rt.NondetU64()
 	rt.Assume(v >= 1 && v <= vMaxAmount)
 	a, err := massutil.NewAmountFromUint(v)
